@@ -17,12 +17,24 @@ CHECKS = {
          "Each Execute by admins, subkeys, ex-admins and strangers with 0-5 messages of every CosmosMsg kind is judged against an independent authorisation model on the pre-state; relayed messages must equal the submitted ones in order; refused calls must change nothing.", TB),
  "C08": ("cwv-direct", "online reference-model monitor (exact per-denomination deduction, granted/spent ledger, isolation) over directed race permutations and seeded random histories on cw1-subkeys",
          "Stored allowances of all subkeys are read back after every call and compared with exact coin-by-coin deduction, expiry rejection at the boundary block/time, saturating decrease, restart after expiry, cumulative spent<=granted, and non-interference between subkeys.", TB),
+ "C09": ("cwv-direct", "online reference-model monitor: independent per-address timeline (value at the start of block h) compared with Member/TotalWeight at boundary heights, ListMembers and raw-key reads after every call",
+         "After every cw4-group call ~20 heights x all addresses are queried (0, instantiation-1/0/+1, change heights -1/0/+1, now, now+1, far future) together with totals, the paged listing and the raw TOTAL_KEY / member_key reads, and compared with the monitor's own change history; several changes per block, re-adds and same-block updates are generated on purpose.", TB),
  "C13": ("cwv-direct", "online reference-model monitor ((minter, cap, renounced) model) over seeded random minter-heavy histories on cw20-base",
          "Minter and TokenInfo are compared with an independent model after every call: only the current minter mints, never beyond the cap, cap survives hand-overs, former minters and everyone after renounce are refused forever, the current minter is never refused a hand-over.", TB),
+ "C14": ("cwv-direct", "online invariant + message-log monitor: Admin/Hooks/members compared before/after every call; every hook notification in Response.messages decoded and checked against the true weights before/after",
+         "Non-admin and former-admin calls must change nothing; after the admin is cleared nothing changes again; each membership update sends exactly one notification per registered hook with chained, truthful old/new values for exactly the touched addresses and every real change reported.", TB),
  "C16": ("cwv-direct", "differential runtime monitor: CanExecute query vs Execute on a copy of the same storage, over states reached by random histories",
          "~280k (quick) / ~70M (thorough) (state, sender, message) probes on both proxies: the query answer must equal the success of the corresponding Execute on an identical storage copy.", TB),
  "C17": ("cwv-direct", "online invariant monitor over seeded random histories on both cw1 proxies (pre/post comparison of AdminList, stored allowances and permissions)",
          "The admin list, frozen flag, allowances and permissions are compared before/after every call by admins, removed admins, subkeys and strangers, continuing long after Freeze and for immutable instantiation.", TB),
+ "C03": ("cwv-app", "online reference-model monitor inside a cw-multi-test App hosting the real multisigs: status of every proposal re-derived from its paged ballots with exact integer threshold rules after every step; directed all-abstain / pass-at-expiry scenarios plus seeded random histories",
+         "After every step (quick ~13k, thorough ~1M) each proposal's reported status is compared with the outcome the reference rules imply for its recorded ballots, reported total weight and expiry (pass-for-every-completion before expiry, exact formula after); Execute/Close admission is checked against the same status on both multisigs.", TBA),
+ "C05": ("cwv-app", "event-log checker (committed sink log + recipient balances with unique ids per proposal message) and lifecycle monitor over seeded random and directed re-entrancy / failed-dispatch histories on both multisigs",
+         "Deliveries are matched, in order, against the proposals that became Executed in the same step (incl. nested Execute via proposal messages); at-most-once over the whole history; failed dispatch leaves Passed; Close only after expiry of a non-passed proposal; status moves only forward; ids increasing; content and clamped expiry fixed at creation.", TBA),
+ "C06": ("cwv-app", "online snapshot monitor: the harness keeps its own per-block shadow of the group / voter list and compares every listed ballot and the reported total weight with the snapshot at the start of the proposal's block; directed same-block and after-creation group changes plus seeded random histories",
+         "Ballot weights, one-ballot-per-address, zero-weight and late-joiner refusal, vote refusal after expiry / on executed proposals and total_weight = sum of the snapshot are checked after every step on both multisigs; the same-block-group-change defect of cw3-flex is a recorded known finding.", TBA),
+ "C15": ("cwv-app", "balance-ledger monitor: deposit-token balances of every actor and the multisig compared before/after each call with a per-proposal deposit ledger; bounded recoverability probe (Close by a stranger after all expiries) at the end of each history",
+         "Exact take on Propose (native funds variants, cw20 allowance variants), refund only to the proposer, at most once, on Execute always and on Close iff configured; multisig holdings = outstanding deposits; recoverability restated as a bounded check; the voted-down-proposal defect is a recorded known finding.", TBA),
  "C19": ("cwv-direct", "online consistency monitor of three query views over seeded random histories, including synthesised pre-0.14 storage carried through the real migrate",
          "After every call the Allowance point query, paged AllAllowances and paged AllSpenderAllowances are compared for all pool pairs; a third of the histories start from a legacy layout (versions 0.9-0.13, no spender table) and run the real migrate first.", TB),
 }
